@@ -1018,7 +1018,14 @@ class PseudoNetCDFFile(PseudoNetCDFSelfReg, object):
                 isinstance(val, (PseudoNetCDFVariable,)) and
                 val.dimensions != ()
             ):
-                outf.variables[key] = val
+                if any(np.may_share_memory(val, v)
+                       for v in self.variables.values()
+                       if isinstance(v, np.ndarray)):
+                    # the value is an existing variable or a view of one:
+                    # copy it, the new file must not share its buffer
+                    outf.copyVariable(val, key=key)
+                else:
+                    outf.variables[key] = val
             else:
                 outf.createVariable(key, val.dtype.char,
                                     dimt, values=val, **propd)
